@@ -177,6 +177,7 @@ theorem inv_work_retry (c : Cfg) (ar aq : Nat) (s : S) (h : Inv c ar aq s) (hrun
   have x := retryCtx h hrun hp
   obtain ⟨hcl, how, hup, hrs, hlc0, hdead, hpt0, hure, hurr, hexp0, hps, hrst, hsr, hdir, hpd, hgl0⟩ := x
   have harm : retryArmsGlobalWhenUnsent = true := by decide
+  have hhdr : (snd s.trace).hdr = false := by rw [h.k2]; exact hrst
   have hglT : retryGt c s = true ∨ s.globalExpired = true := by
     unfold retryGt
     cases hq : s.reqSent with
@@ -225,7 +226,7 @@ theorem inv_work_retry (c : Cfg) (ar aq : Nat) (s : S) (h : Inv c ar aq s) (hrun
     · simp only [Bool.not_eq_true] at hur
       apply finish_direct c ar aq m hbm m_run m_cl h3m h6m m_pd m_sr m_dir (by rw [m_ur]; exact hur) m_ps hcu.2.1 hlcm m_resp
         hcu.2.2.2.1 hcu.2.2.2.2 m_rst (by rw [m_ph, hp]; intro hh; cases hh)
-      intro _; right; exact ⟨m_resp, hlcm⟩
+      intro _; right; exact ⟨m_resp, Or.inl hlcm⟩
   · rw [if_neg hhg]
     simp only
     have e_sp : ∀ (z : S), (if (retryArmsGlobalWhenUnsent && !z.reqSent) = true then onUpstreamRequestSent c z
@@ -328,7 +329,7 @@ theorem inv_work_retry (c : Cfg) (ar aq : Nat) (s : S) (h : Inv c ar aq s) (hrun
           · simp
         · exact liveAreCounted_append _ _ (h.k22 how) (by simp)
         · rfl
-        · simp [snd_append, sndStep]
+        · rw [snd_append, sndStep_uf _ _ _ hhdr]
         · simp [nLog_append, isLog]
         · exact hgtm
         · exact hglT
@@ -370,7 +371,17 @@ theorem inv_work_retry (c : Cfg) (ar aq : Nat) (s : S) (h : Inv c ar aq s) (hrun
           · simp
         · exact liveAreCounted_append _ _ (h.k22 how) (by simp)
         · rfl
-        · cases hd : c.hasData <;> cases ht : c.hasTrailers <;> simp [snd_append, snd_append2, snd, List.foldl_append, sndStep]
+        · have e0 : ∀ l : List Ev, (∀ e ∈ l, ∀ g, sndStep g e = g) →
+              snd (s.trace ++ Ev.un s.streams.length :: l) = snd s.trace := by
+            intro l hl
+            have e1 : s.trace ++ Ev.un s.streams.length :: l = (s.trace ++ [Ev.un s.streams.length]) ++ l := by simp
+            have h1 := snd_append s.trace (Ev.un s.streams.length)
+            rw [sndStep_un _ _ hhdr] at h1
+            rw [e1]
+            unfold snd at h1 ⊢
+            rw [List.foldl_append, h1]
+            exact foldl_sndStep_neutral l _ hl
+          cases hd : c.hasData <;> cases ht : c.hasTrailers <;> simp <;> exact e0 _ (by simp [sndStep])
         · cases hd : c.hasData <;> cases ht : c.hasTrailers <;> simp [nLog, List.filter_append, isLog]
         · exact hgtm
         · exact hglT
